@@ -188,8 +188,27 @@ class LifecycleScan(FiniteTask):
                                 and ast.unparse(n.args[1]) == "evt.EVT_ESTABLISHED":
                             in_loop = any(n in list(ast.walk(l)) for l in loops)
                             sites.append((fn, f.name, in_loop))
-        emit("C27/frame/EVT_ESTABLISHED-is-triggered-only-by-the-two-negotiation-functions-once-each-outside-loops",
-             sorted(sites) == [("acse.py", "_negotiate_as_acceptor", False), ("acse.py", "_negotiate_as_requestor", False)], detail=str(sorted(sites)))
+        KNOWN2 = {("acse.py", "_negotiate_as_acceptor"), ("acse.py", "_negotiate_as_requestor")}
+        ok = sorted(sites) == [("acse.py", "_negotiate_as_acceptor", False), ("acse.py", "_negotiate_as_requestor", False)]
+        if not ok and all(not lp for _f, _n, lp in sites):
+            # the trigger may sit in a private helper of the two functions (scanutil): then each of the two must reach it through
+            # exactly one call outside loops, and nothing else may reach it
+            from contracts.scanutil import callers_by_name, roots_of, library_functions
+            callers = callers_by_name()
+            helpers = {(fn, nm) for fn, nm, _lp in sites if (fn, nm) not in KNOWN2}
+            resolved = all(roots_of(h, KNOWN2, callers) is not None for h in helpers)
+            per_root = {k: 0 for k in KNOWN2}
+            for fn, f in library_functions():
+                if (fn, f.name) in KNOWN2:
+                    loops = [l for l in ast.walk(f) if isinstance(l, (ast.For, ast.While))]
+                    for n in ast.walk(f):
+                        if isinstance(n, ast.Call):
+                            nm = n.func.attr if isinstance(n.func, ast.Attribute) else (n.func.id if isinstance(n.func, ast.Name) else None)
+                            direct = ast.unparse(n.func) == "evt.trigger" and len(n.args) >= 2 and ast.unparse(n.args[1]) == "evt.EVT_ESTABLISHED"
+                            if direct or any(nm == h[1] for h in helpers):
+                                per_root[(fn, f.name)] += 1 if not any(n in list(ast.walk(l)) for l in loops) else 100
+            ok = resolved and all(v == 1 for v in per_root.values()) and len({(fn, nm) for fn, nm, _lp in sites}) == len(sites)
+        emit("C27/frame/EVT_ESTABLISHED-is-triggered-only-by-the-two-negotiation-functions-once-each-outside-loops", ok, detail=str(sorted(sites)))
 
 
 # The terminal outcomes of the negotiation (a refusal, an abort by either side, "accepted but no usable context") are notified by
@@ -229,37 +248,16 @@ class TerminalSitesScan(FiniteTask):
                             sites.add((fn, f.name))
         # a trigger site inside a helper that is called only from functions of the known set (directly or through further such
         # helpers) is executed - inlined - by those functions' contracts: it is attributed to its callers, not reported (P_4)
-        callers = {}
-        for dp, dn, fns in os.walk(os.path.join(REPO_ROOT, "pynetdicom")):
-            if "tests" in dp.split(os.sep) or "benchmarks" in dp.split(os.sep) or "apps" in dp.split(os.sep):
-                continue
-            for fn in fns:
-                if not fn.endswith(".py"):
-                    continue
-                tree = ast.parse(open(os.path.join(dp, fn), encoding="utf-8").read())
-                for f in ast.walk(tree):
-                    if isinstance(f, ast.FunctionDef):
-                        for n in ast.walk(f):
-                            if isinstance(n, ast.Call):
-                                nm = n.func.attr if isinstance(n.func, ast.Attribute) else (n.func.id if isinstance(n.func, ast.Name) else None)
-                                if nm:
-                                    callers.setdefault(nm, set()).add((fn, f.name))
-        resolved = set()
+        from contracts.scanutil import callers_by_name, roots_of
+        callers = callers_by_name()
+        unknown, covered = set(), set()
         for site in sites:
-            seen, todo, ok = set(), [site], True
-            while todo and ok:
-                cur = todo.pop()
-                if cur in self.KNOWN or cur in seen:
-                    continue
-                seen.add(cur)
-                cs = {c for c in callers.get(cur[1], set()) if c != cur}
-                if not cs or not cur[1].startswith("_"):
-                    ok = False
-                todo += list(cs)
-            if ok:
-                resolved.add(site)
-        unknown = sites - self.KNOWN - resolved
-        missing = self.KNOWN - sites - {k for k in self.KNOWN if any(k in (callers.get(r[1], set())) for r in resolved)}
+            r = roots_of(site, self.KNOWN, callers)
+            if r is None:
+                unknown.add(site)
+            else:
+                covered |= r
+        missing = self.KNOWN - covered
         emit("C27/frame/terminal-outcomes-are-notified-only-by-the-functions-under-a-terminal-event-contract", not unknown and not missing,
              detail=str(sorted(unknown | missing)))
 
